@@ -231,7 +231,13 @@ func (c *Compiler) SetGlobalSymbolsIndex() {
 	c.symbolTable.Range(
 		visitParent,
 		func(s *Symbol) bool {
-			if s.Scope == ScopeGlobal && s.Index == -1 {
+			if s.Scope != ScopeGlobal {
+				return true
+			}
+			// index of a symbol defined by an earlier compilation is valid
+			// only if the same constants are provided again.
+			if s.Index < 0 || s.Index >= len(c.constants) ||
+				c.constants[s.Index] != String(s.Name) {
 				s.Index = c.addConstant(String(s.Name))
 			}
 			return true
